@@ -114,6 +114,17 @@ Theorem C08b_temporal_sound : forall mode is_ts zones zid vals t op l v all,
 Proof. exact temporal_sound. Qed.
 Print Assumptions C08b_temporal_sound.
 
+(** The per-zone index contains EVERY instant it was built from — for every zone size (no
+    bound: 1, 65, 100, 7999 … distinct instants) and every value list with duplicates in
+    any order.  This is the specification of [ZoneTemporalIndex::contains_ts] that the
+    calendar-then-index equality probe relies on (the model has no fence component: the
+    pinned [contains_ts] searches all keys; a fence-window refinement must still satisfy
+    this statement, and the size families of the generator test it at 65..8001 instants). *)
+Theorem C08b_temporal_index_contains_every_instant : forall ts t,
+  In t ts -> contains_ts (from_timestamps ts) t = true.
+Proof. exact ft_contains. Qed.
+Print Assumptions C08b_temporal_index_contains_every_instant.
+
 (** [=] is sound for every magnitude and sign (truncated bucket ids only collide, never reorder). *)
 Theorem C08b_temporal_eq_sound_any_magnitude : forall mode is_ts zones zid vals t l v all,
   NoDup (map fst zones) -> In (zid, vals) zones -> In t vals ->
